@@ -23,7 +23,7 @@ CMAKE_COMMON = [
 BASEFLAGS = "-O1 -g1 -DNDEBUG -DUCL_STIR_VERIF -fno-omit-frame-pointer -w"
 VARIANTS = {
     # name: (STIR_OPENMP, extra compile flags for STIR and harness, link flags, simrt objects)
-    "seq": dict(openmp="OFF", cxx=BASEFLAGS + " -fsanitize=address -D_GLIBCXX_SANITIZE_VECTOR", link="-fsanitize=address",
+    "seq": dict(openmp="OFF", cxx=BASEFLAGS + " -fsanitize=address -D_GLIBCXX_SANITIZE_VECTOR -D_GLIBCXX_ASSERTIONS", link="-fsanitize=address",
                 simrt=["simcore", "simlibc"]),
     "omp": dict(openmp="ON", cxx=BASEFLAGS + " -fsanitize=thread", link="",
                 simrt=["simcore", "simlibc", "simgomp", "simtsan"]),
